@@ -5,9 +5,12 @@ type ChildNodes []*ChildNode
 func (nodes ChildNodes) Individuals() (individuals IndividualNodes) {
 	for _, child := range nodes {
 		pointer := valueToPointer(child.Value())
-		individual := nodes[0].Family().Document().NodeByPointer(pointer)
+		node := nodes[0].Family().Document().NodeByPointer(pointer)
 
-		individuals = append(individuals, individual.(*IndividualNode))
+		// Ignore children that do not exist, or are not individuals.
+		if individual, ok := node.(*IndividualNode); ok {
+			individuals = append(individuals, individual)
+		}
 	}
 
 	return
